@@ -436,6 +436,66 @@ fn count_offered(v: &Node, env: &BTreeMap<String, Node>) -> usize {
     }
 }
 
+
+/// Single-source pass: for arbitrary entry shapes (composite keys, sequence / mapping values), a mapping whose
+/// entries all arrive through one `<<` (inline or through an alias) reads like the mapping that has them as its own.
+fn single_source_pass(acc: &mut Acc) {
+    let keys = ["k", "\"\"", "~", "[1, 2]", "{a: 1}", "{'': 1}", "{\"null\": 1}", "!t k", "\"<<\"", "7", "true"];
+    let vals = ["1", "[1, 2, 3]", "{a: 1}", "~", "\"s\"", "[[1], {b: 2}]"];
+    let mut entries: Vec<String> = Vec::new();
+    for k in keys {
+        for v in vals {
+            entries.push(format!("{}: {}", k, v));
+        }
+    }
+    for policy in 0..3u8 {
+        let mut o = serde_saphyr::Options::default();
+        o.duplicate_keys = [DuplicateKeyPolicy::Error, DuplicateKeyPolicy::FirstWins, DuplicateKeyPolicy::LastWins][policy as usize];
+        for (i, e1) in entries.iter().enumerate() {
+            for (j, e2) in entries.iter().enumerate() {
+                if i / vals.len() == j / vals.len() && i != j {
+                    continue; // same key twice: C04's business
+                }
+                let body = if i == j { e1.clone() } else { format!("{}, {}", e1, e2) };
+                let own = format!("{{{}}}\n", body);
+                let inline = format!("{{<<: {{{}}}}}\n", body);
+                let aliased = format!("[&b {{{}}}, {{<<: *b}}]\n", body);
+                acc.evaluations += 1;
+                acc.execs += 3;
+                acc.compared += 2;
+                acc.nontrivial += 1;
+                acc.class("single_source", 1);
+                let read = |t: &str| guarded(|| serde_saphyr::from_str_with_options::<Tree>(t, o.clone()).map_err(|_| ()));
+                let want = match read(&own) {
+                    Ok(w) => w,
+                    Err(p) => {
+                        acc.add_violation(format!("panic|single source {}", body), "panic", p, json!({"entries": body}), json!({}));
+                        continue;
+                    }
+                };
+                for (name, text, second) in [("an inline merge source", &inline, false), ("a merge source given by an alias", &aliased, true)] {
+                    let got = match read(text) {
+                        Ok(g) => g.map(|t| if second { if let Tree::Seq(v) = &t { v.get(1).cloned().unwrap_or(Tree::Null) } else { t } } else { t }),
+                        Err(p) => {
+                            acc.add_violation(format!("panic|single source {}", body), "panic", p, json!({"entries": body}), json!({}));
+                            continue;
+                        }
+                    };
+                    if got != want {
+                        acc.add_violation(
+                            format!("merged_entries_differ_from_own|{}|{}|{}", body, name, POLICIES[policy as usize]),
+                            "merged_entries_differ_from_own",
+                            format!("{:?} reads as {:?}, but with the same entries coming from {} ({:?}) it reads as {:?}", own, want, name, text, got),
+                            json!({"entries": body, "policy": policy}),
+                            json!({}),
+                        );
+                    }
+                }
+            }
+        }
+    }
+}
+
 pub fn run(ctx: &Ctx) -> i32 {
     let p = C03::new();
     let n_menu = p.menu.len();
@@ -461,6 +521,7 @@ pub fn run(ctx: &Ctx) -> i32 {
         Some(Case { entries, policy: (r % 3) as u8, target: if r < 3 { 0 } else { 3 }, layout: 0 })
     });
     acc = acc.merge(acc2);
+    single_source_pass(&mut acc);
     acc.samples.truncate(0);
     for es in [vec![0u8, 3], vec![7, 1, 6], vec![5, 0, 15]] {
         let c = Case { entries: es, policy: 0, target: 0, layout: 0 };
